@@ -195,7 +195,7 @@ func runC05(c *Ctx) {
 			continue
 		}
 		r := c.Rng("layout", i)
-		o := JGenOpts{MaxAccounts: r.Range(2, 6), MaxDays: r.Range(1, 5), Unicode: true, BaseDay: 737000 + r.Intn(1500), SpanDays: Pick(r, []int{0, 3, 30, 200}),
+		o := JGenOpts{MaxAccounts: r.Range(2, 6), MaxDays: r.Range(1, 5), Unicode: true, BaseDay: 737000 + r.Intn(1500), SpanDays: Pick(r, []int{0, 3, 30, 200}), BoundaryDates: r.Chance(1, 4),
 			Mutate: r.Chance(1, 5), Accruals: r.Chance(1, 4)}
 		if r.Chance(1, 2) {
 			o.Prices, o.Valuation = true, "CHF"
